@@ -86,7 +86,7 @@ class Mon(LifeCounting, AllocOracle):
     def check_before_update(self, r, world):
         if r.kind == "cmd":
             g = self.conns.get(r.ev[1])
-            self._pre = (g.app, g.side) if g else None
+            self._pre = (g.app, g.side, g.did_allocate) if g else None
         return []
 
     def check(self, r, world):
@@ -94,8 +94,8 @@ class Mon(LifeCounting, AllocOracle):
             return []
         if not self._pre or self._pre[0] is None:
             return []
-        # a second allocate on the same connection is a protocol error (C17), not an allocation
-        if any(f.get("error") == "you already allocated one, don't be greedy" for f in has_error(r.frames_of(r.ev[1]))):
+        # a second allocate on the same connection is a protocol error (C17's subject), not an allocation
+        if self._pre[2]:
             return []
         self.evals_in_last_step += 1
         return self.judge(self, r, world, self._pre[0], self._pre[1])
